@@ -96,12 +96,22 @@ class DependencyBuilder:
     ) -> Dependencies:
         results = Dependencies()
         for dependant in dependant_types:
-            if isinstance(dependant, pydsdl.UnionType):
+            if any(isinstance(layout_type, pydsdl.UnionType) for layout_type in cls._extract_layout_types(dependant)):
                 # Unions always require integer for the tag field.
                 results.uses_integer = True
                 results.uses_union = True
             cls._extract_dependent_types(cls._extract_data_types(dependant), transitive, results)
         return results
+
+    @classmethod
+    def _extract_layout_types(cls, t: pydsdl.CompositeType) -> typing.List[pydsdl.CompositeType]:
+        # The types that define the layout of the given type: the inner type of a delimited type and
+        # the request and the response of a service.
+        if isinstance(t, pydsdl.ServiceType):
+            return cls._extract_layout_types(t.request_type) + cls._extract_layout_types(t.response_type)
+        if isinstance(t, pydsdl.DelimitedType):
+            return [t.inner_type]
+        return [t]
 
     @classmethod
     def _extract_data_types(cls, t: pydsdl.CompositeType) -> typing.List[pydsdl.SerializableType]:
